@@ -243,20 +243,22 @@ func (conn *Conn) send(call *Call) {
 		}
 		conn.pending[seq] = call
 	}
+	// private copies, taken before the lock is released: once the call is registered the
+	// reader may complete it, and its caller may recycle it together with its upgrade
+	// flags (PutCall, putUpgrade), before the request has been written
+	flags := *call.upgrade
+	serviceMethod, args := call.ServiceMethod, call.Args
 	conn.mutex.Unlock()
 	ctx := Context{}
 	ctx.Seq = seq
-	// a private copy: once the call is registered the reader may complete it and
-	// recycle its upgrade flags (putUpgrade) before the request has been written
-	flags := *call.upgrade
 	ctx.upgrade = &flags
 	var upgradeBuffer []byte
 	if !flags.IsZero() {
 		upgradeBuffer = getUpgradeBuffer()
 		ctx.Upgrade, _ = flags.Marshal(upgradeBuffer)
 	}
-	ctx.ServiceMethod = call.ServiceMethod
-	err := conn.codec.WriteRequest(&ctx, call.Args)
+	ctx.ServiceMethod = serviceMethod
+	err := conn.codec.WriteRequest(&ctx, args)
 	if err != nil {
 		conn.mutex.Lock()
 		_, registered := conn.pending[seq]
